@@ -541,7 +541,9 @@ def handle (args : List String) : Option String :=
     let out : CorrKey.Outcome := match CorrKey.wireId p.2 with
       | some w => if CorrKey.matchEntry {} ⟨p.1, to⟩ ⟨w, true, true, frm⟩ then .reply else .lost
       | none => .lost
-    let (o, h) := match out with | .reply => ("reply", "0") | .lost => ("lost", "1")
+    -- after the call has returned (and deregistered) a duplicate of its reply is a response nobody
+    -- waits for: the handler gets it (`step … (.read st)` with `lookup = none`)
+    let (o, h) := match out with | .reply => ("reply", "0 dup=1") | .lost => ("lost", "1")
     pure s!"ids={joinList ids} out={o} h={h} probe=live"
   | ["ibbw", cfg, ops] => do
     let s0 ← ibbInit cfg
